@@ -86,7 +86,16 @@ def classify_lambda(lam: ast.Lambda, fname: str):
     bail(lam, "unrecognised wrapper signature")
 
 
-def classify(expr):
+def def_as_lambda(fn: ast.FunctionDef) -> ast.Lambda:
+    """A module-level `def w(...): return <call>` is the lambda with the same parameters and body."""
+    body = [s_ for s_ in fn.body if not (isinstance(s_, ast.Expr) and isinstance(s_.value, ast.Constant))]
+    if fn.decorator_list or len(body) != 1 or not isinstance(body[0], ast.Return) or body[0].value is None:
+        bail(fn, "wrapper function is not a single `return <call>`")
+    lam = ast.Lambda(args=fn.args, body=body[0].value)
+    return ast.copy_location(lam, fn)
+
+
+def classify(expr, defs=None):
     static = False
     if isinstance(expr, ast.Call) and is_name(expr.func, "staticmethod"):
         if len(expr.args) != 1 or expr.keywords:
@@ -103,6 +112,12 @@ def classify(expr):
         kind = "Alias"
     elif isinstance(x, ast.Lambda):
         kind = classify_lambda(x, fname)
+    elif is_name(x) and defs and x.id in defs:
+        used = defs[x.id]
+        used["n"] += 1
+        if used["n"] > 1:
+            bail(x, "wrapper function used for more than one method")
+        kind = classify_lambda(def_as_lambda(used["fn"]), fname)
     else:
         bail(x, "wrapper is neither the function itself nor a lambda")
     return fname, kind, static
@@ -113,7 +128,10 @@ def translate(repo: Path) -> str:
     tree = ast.parse(path.read_text())
     rows = []
     imported = set()
+    defs = {n.name: {"fn": n, "n": 0} for n in tree.body if isinstance(n, ast.FunctionDef)}
     for n in tree.body:
+        if isinstance(n, ast.FunctionDef):
+            continue            # only meaningful through the assignment that uses it (checked there)
         if isinstance(n, ast.ImportFrom):
             if n.module == "functools":
                 if [a.name for a in n.names] != ["wraps"] or n.names[0].asname:
@@ -129,12 +147,15 @@ def translate(repo: Path) -> str:
         if isinstance(n, ast.Assign) and len(n.targets) == 1 and isinstance(n.targets[0], ast.Attribute) \
                 and is_name(n.targets[0].value, "Triangle"):
             name = n.targets[0].attr
-            fname, kind, static = classify(n.value)
+            fname, kind, static = classify(n.value, defs)
             if fname not in imported:
                 bail(n, f"{fname} is not imported from the package")
             rows.append((name, fname, kind, static))
             continue
         bail(n, "unexpected top-level statement in factory.py")
+    unused = [k for k, v in defs.items() if v["n"] == 0]
+    if unused:
+        raise Unsupported(f"module-level functions in factory.py that no wiring uses: {unused}")
     # the wrapped names must not be re-bound anywhere else in the package (fail closed on monkey patching)
     wired = {r[0] for r in rows}
     for py in sorted((repo / "bermuda").rglob("*.py")):
